@@ -53,7 +53,7 @@ def lane_setup():
     from basilisp.lang import seq as lseq
     setter = getattr(nseq, "_verif_set_contention_hook", None)
     if setter is None:
-        raise SystemExit("HARNESS: native module lacks _verif_set_contention_hook (guarded hook commit missing)")
+        B.harness_exit("HARNESS: native module lacks _verif_set_contention_hook (guarded hook commit missing)")
     setter(_hook)
     _st["lseq"] = lseq
     from basilisp.lang import vector as vec
